@@ -14,8 +14,8 @@ import (
 
 func init() {
 	register("C10", "generated histories (as C01) in which, at every wait, every type of resume (msg, wait_timeout, run_expiration, dial) is tried on a freshly "+
-		"restored copy of the session, with and without a fault injected into the asset store between sprints (waiting run's flow deleted, its node deleted, "+
-		"its wait removed, its router removed, parent flow deleted) and with small resume limits; non-trivial = distinct (fault, resume type, outcome class, session shape)", runC10)
+		"restored copy of the session, with and without a fault injected into the asset store between sprints (waiting run's flow deleted, its node edited to have no router, its node gone, "+
+		"the node an ancestor run is paused at gone, parent flow deleted) and with small resume limits; non-trivial = distinct (fault, resume type, outcome class, session shape)", runC10)
 }
 
 var allResumeSpecs = []string{"msg:red", "timeout", "expiration", "dial:answered"}
@@ -102,6 +102,45 @@ var faults = []fault{
 		f.Nodes[ni].Actions = []map[string]any{{"uuid": "9487a60e-a6ef-4a88-b35d-894bfe074144", "type": "send_msg", "text": "edited"}}
 		return true
 	}, true},
+	// the node is replaced by one with another UUID (exits that led to it now lead to the replacement): the run's step names a
+	// node that no longer exists
+	{"node-vanished", func(ga *genAssets, cs *canonSession) bool {
+		w := waitingOf(cs)
+		if w < 0 || cs.Runs[w].Flow < 0 || len(cs.Runs[w].Path) == 0 {
+			return false
+		}
+		f := ga.Flows[cs.Runs[w].Flow]
+		ni := cs.Runs[w].Path[len(cs.Runs[w].Path)-1].Node
+		if ni >= len(f.Nodes) {
+			return false
+		}
+		f.Nodes[ni].UUID = "0e5c1d2a-7b3f-4c4d-8e9a-1f2b3c4d5e6f"
+		return true
+	}, true},
+	// the same for the node an ancestor run is paused at: the waiting run can still be resumed, its ancestor no longer
+	{"ancestor-node-vanished", func(ga *genAssets, cs *canonSession) bool {
+		w := waitingOf(cs)
+		if w < 0 || cs.Runs[w].Parent < 0 {
+			return false
+		}
+		p := cs.Runs[w].Parent
+		if cs.Runs[p].Parent >= 0 && len(cs.Runs)%2 == 0 {
+			p = cs.Runs[p].Parent // sometimes the grandparent
+		}
+		if cs.Runs[p].Flow < 0 || len(cs.Runs[p].Path) == 0 {
+			return false
+		}
+		f := ga.Flows[cs.Runs[p].Flow]
+		ni := cs.Runs[p].Path[len(cs.Runs[p].Path)-1].Node
+		if ni >= len(f.Nodes) {
+			return false
+		}
+		if cs.Runs[p].Flow == cs.Runs[w].Flow && len(cs.Runs[w].Path) > 0 && cs.Runs[w].Path[len(cs.Runs[w].Path)-1].Node == ni {
+			return false // that is the waiting node itself
+		}
+		f.Nodes[ni].UUID = "1f6d2e3b-8c4a-4d5e-9fab-2a3b4c5d6e7a"
+		return true
+	}, false},
 	{"parent-flow-deleted", func(ga *genAssets, cs *canonSession) bool {
 		w := waitingOf(cs)
 		if w < 0 || cs.Runs[w].Parent < 0 {
@@ -119,10 +158,21 @@ var faults = []fault{
 func runC10(c *Ctx) {
 	r := c.Rng
 	n := c.N(500, 20000)
-	for i := 0; i < n; i++ {
-		ec := genEngCase(r, false)
-		if r.Chance(40) {
-			ec.MaxResumes = Pick(r, []int{1, 2, 3})
+	var corpus []*engCase
+	for _, ec := range adversarialCorpus() {
+		if ec.MaxResumes < 100 {
+			corpus = append(corpus, ec) // the hand-built histories that run into the resume limit (msg waits and dial waits)
+		}
+	}
+	for i := 0; i < n+len(corpus); i++ {
+		var ec *engCase
+		if i < len(corpus) {
+			ec = corpus[i]
+		} else {
+			ec = genEngCase(r, false)
+			if r.Chance(40) {
+				ec.MaxResumes = Pick(r, []int{1, 2, 3})
+			}
 		}
 		ncall := 0
 		runEngCase(c, ec, "C10", func(er *engRun, call *engCall) {
@@ -185,6 +235,23 @@ func runC10(c *Ctx) {
 						continue
 					}
 					checkRejection(c, er2.Case, f.name, call2, ncall)
+					// the resume limit: once the waits the runs have logged reach MaxResumesPerSession, any resume only fails the session
+					nwaits := 0
+					for _, run := range call.Post.Runs {
+						for _, e := range run.Events {
+							if e.IsWait {
+								nwaits++
+							}
+						}
+					}
+					if f.name == "none" && nwaits >= ec.MaxResumes {
+						c.Count("check:M-resume-limit")
+						if !(call2.Class == "ok" && call2.Post.Status == "f" && sprintHasFailure(call2)) {
+							d := desc()
+							d["waits_logged"] = nwaits
+							c.Fail("monitor", "M-resume-limit", "resume-limit-not-enforced", fmt.Sprintf("the session has logged %d waits, MaxResumesPerSession is %d, and a resume did not end it as failed with a failure event", nwaits, ec.MaxResumes), d)
+						}
+					}
 					if f.breaks {
 						ok := call2.Class == "ok" && call2.Post.Status == "f" && sprintHasFailure(call2)
 						if !ok {
@@ -211,7 +278,7 @@ func runC10(c *Ctx) {
 				}
 			}
 			if i < 2 && ncall == 1 {
-				c.Sample(map[string]any{"model_assets": ec.GA.ModelSpec(nil), "session_at_wait": call.Post.enc(), "faults": []string{"none", "flow-deleted", "node-deleted", "wait-removed", "router-removed", "parent-flow-deleted"}, "resumes": allResumeSpecs})
+				c.Sample(map[string]any{"model_assets": ec.GA.ModelSpec(nil), "session_at_wait": call.Post.enc(), "faults": []string{"none", "flow-deleted", "node-deleted", "node-vanished", "ancestor-node-vanished", "parent-flow-deleted"}, "resumes": allResumeSpecs})
 			}
 		})
 	}
